@@ -29,14 +29,14 @@ REAL = ['smartquery.lexer', 'smartquery.ply.lex', 'smartquery.sq_parser', 'evalu
 STUB = ['host names mapping (recording dict subclass)']
 REACH_PROBES = ('percent_name', 'unicode_name', 'keyword_like_name', 'name_adjacent_to_string', 'comment_with_names',
                 'lexical_error_after_names', 'abandoned_generator', 'after_failed_parse', 'lookup_subset_checked',
-                'name_adjacent_to_number', 'fault_then_judged', 'same_text_again', 'unclosed_percent', 'deferred_result_consumed_later', 'inner_blank_names')
+                'name_adjacent_to_number', 'fault_then_judged', 'same_text_again', 'unclosed_percent', 'deferred_result_consumed_later', 'inner_blank_names', 'older_listing_closed_midway')
 IMPLICIT = {'list', 'dict', '__getitem__', '__setitem__', '__delitem__', '__setitem_with_op__'}
 
 PLAIN = ['\u2126', '\u212bx', '\ufb01x', 'a', 'b2', '_x', 'x_1', 'if_', 'True_', 'not_in', 'in1', 'orx', 'andy', 'nota', 'delta', 'elsewhere', 'forx', 'r', 'rr',
          'Ünï', 'имя', '变量', 'é', 'None_', 'defx', 'e1', 'len', 'map', 'f']
-PERCENT = ['%e\u0301t\u00e9%', '%unit price%', '%unit  price%', '%my var%', '%a.b%', '%x+y%', '%if%', '%"q"%', "%it's%", '% %', '%1%', '%a b.c-d%', '%#no comment%', '%for x%', '%%']
+PERCENT = ['%a\x85b%', '%c\u2028d%', '%e\u0301t\u00e9%', '%unit price%', '%unit  price%', '%my var%', '%a.b%', '%x+y%', '%if%', '%"q"%', "%it's%", '% %', '%1%', '%a b.c-d%', '%#no comment%', '%for x%', '%%']
 KEYWORDS = ['and', 'or', 'in', 'not', 'if', 'else', 'True', 'False', 'None', 'del', 'for', 'while', 'break', 'continue', 'def', 'raise', 'elif']
-STRINGS = ['"""x"""', '"abc"', "'x y'", '"a + b"', 'r"raw\\d"', "r'%v%'", '"%pct%"', '"it\'s"', '"#nocomment"', '""', '"if x"']
+STRINGS = ['"a\u2028b c"', "'p\x0cq r'", 'r"u\x85v w"', '"x\x1cy z"', '"\u2029n m"', '"""x"""', '"abc"', "'x y'", '"a + b"', 'r"raw\\d"', "r'%v%'", '"%pct%"', '"it\'s"', '"#nocomment"', '""', '"if x"']
 NUMBERS = ['1', '42', '3.14', '007', '10.0']
 PUNCT = ['+', '-', '*', '/', '**', '==', '!=', '<', '<=', '>', '>=', '=', '+=', '=>', '(', ')', '[', ']', '{', '}', ',', '.', '|', ':', ';']
 ILLEGAL = ['$', '?', '~', '`', '@', '^', '&', '\\', '!', '"unterminated', "'open", '\x00', '☃', '"""abc', "'''x", '""" a b', '"a\\" + secret', '"hello \\"world', "'it\\'s + name"]
@@ -61,7 +61,7 @@ def _soup(r, probes):
         elif k == 'punct':
             toks.append(('punct', r.choice(PUNCT)))
         elif k == 'comment':
-            toks.append(('comment', '# ' + r.choice(['note a b', 'x = %y%', 'if', '"s" name'])))
+            toks.append(('comment', '# ' + r.choice(['note a b', 'x = %y%', 'if', '"s" name', 'page\x0cbreak here', 'sep\u2028arator two', 'nel\x85three'])))
         else:
             toks.append(('nl', r.choice(['\n', '\r\n'])))
     out = []
@@ -123,7 +123,7 @@ def _soup(r, probes):
 
 
 def _program(r, probes):
-    names = r.sample(PLAIN[:19] + PERCENT[:9], 5)
+    names = r.sample(PLAIN[:19] + PERCENT[:11], 5)
     env = {names[0]: 'num', names[1]: 'list', names[2]: 'str', names[3]: 'dict', names[4]: 'num'}
     g = ProgGen(r, env, max_depth=r.choice([1, 2, 3]), illtyped=0.03)
     prog = g.program(n_stmts=r.choice([1, 2, 3]))
@@ -293,6 +293,11 @@ def execute(case, ctx):
             if n is None:
                 for x in it:
                     got.append(x)
+                    if len(got) == 1 and suspended and (step + len(src)) % 3 == 0:
+                        # while this listing is being read the host finally drops an older, abandoned one
+                        suspended.pop(0).close()
+                        ctx.fault('older_listing_closed_midway')
+                        ctx.probe('older_listing_closed_midway')
             else:
                 for _ in range(n):
                     try:
